@@ -15,7 +15,7 @@ RULE = ("(a) in-memory reader: call sets of 2-5 samples x sample lists (subset, 
         "builder; (b) on the binary: column permutations and label-order-preserving list reorderings print identical "
         "bytes; reordering labels permutes the axes (checked by transposing the parsed spectrum); -s vs -S file with the "
         "same content print identical bytes; unknown sample / empty list exit non-zero with empty stdout. non-trivial = "
-        "list with >= 2 labels; a listed non-diploid genotype after a listed missing / multiallelic one in every column order is an error; samples files mixing a tab followed by nothing (the population '') with lines without a tab (unnamed); labels spelled like the unnamed population ('[unnamed]', 'unnamed', '-') next to samples without a label")
+        "list with >= 2 labels; a listed non-diploid genotype after a listed missing / multiallelic one in every column order is an error; samples files mixing a tab followed by nothing (the population '') with lines without a tab (unnamed); labels spelled like the unnamed population ('[unnamed]', 'unnamed', '-') next to samples without a label; labels containing tabs that differ only after the tab")
 
 
 def transpose_flat(shape, vals, perm):
@@ -98,7 +98,10 @@ def check(rep, tier, seed):
              b"a\tA\tx\nb\tB\n", b"a \tA\nb\t B\n", b"a=A\nb=B\n", b"a,b\tA\n", b"\tA\nb\tA\n", b"a\t\nb\t\n", b"a\tA\na\tB\n", b"a\tA\nb\tB\na\tB\n",
              b"s 0\tpop 1\ns1\tpop 2\ns2\tpop 1\n", b"a\tA\rb\tB\n", b"a\tA\n\r\nb\tA\n", b"x\tA B\ty\n",
              # a line with a tab and nothing after it names the population "" - which is not the unnamed population of a line without a tab
-             b"a\t\nb\nc\tB\n", b"a\nb\t\n", b"a\t\nb\t\nc\n", b"a\t\nb\nc\t\nd\n", b"a\nb\t\nc\tB\nd\n"]
+             b"a\t\nb\nc\tB\n", b"a\nb\t\n", b"a\t\nb\t\nc\n", b"a\t\nb\nc\t\nd\n", b"a\nb\t\nc\tB\nd\n",
+             # the label is everything after the FIRST tab: labels that contain tabs and differ only after one are different labels
+             b"a\tA\r\nb\tB\r\nc\tA", b"a\tA\nb\tA\r\nc\tB\r\n", b"a\r\nb\r\n", b"a\r\nb", b"a\tA\r\n\r\nb\tA\r\n", b"a\tA\r\nb\tA",
+             b"a\tX\t1\nb\tX\t2\nc\tX\t1\n", b"a\tX\t\nb\tX\n", b"a\tX\t1\nb\tX\n", b"a\t\t\nb\t\n", b"a\tp q\tr\nb\tp q\ts\nc\tp q\n"]
     for _ in range(40 if tier == "quick" else 400):
         alphabet = b"ab \t\n\r=,AB"
         files.append(bytes(rng.choice(alphabet) for _ in range(rng.randrange(0, 24))))
@@ -243,11 +246,15 @@ def check(rep, tier, seed):
              (["create", "-s", "a=A,zzz=B", "-p", "1,1"], render_vcf(["a", "b"], [["0/1", "0/0"]])),
              (["create", "-s", "a,zzz", "--project-shape", "3"], render_vcf(["a", "b"], [["0/1", "0/0"]])),
              (["create", "-s", "zzz,a", "-p", "1"], render_vcf(["a", "b"], [["0/1", "0/0"]]))]
+    # a call set WITHOUT sample columns (sites only): the list of all samples is empty, as is an empty samples file - an error
+    nos = render_vcf([], [[], []])
+    ejobs += [(["create"], nos), (["create", "-s", "a"], nos), (["create", "-p", "1"], nos)]
     gpath = os.path.join(WORK, "c09_ghost.txt"); open(gpath, "wb").write(b"a\tA\nghost\tA\n")
     ejobs.append((["create", "-S", gpath, "-p", "1"], render_vcf(["a", "b"], [["0/1", "0/0"]])))
     ejobs.append((["create", "-S", gpath], render_vcf(["a", "b"], [["0/1", "0/0"]])))
     epath = os.path.join(WORK, "c09_empty.txt"); open(epath, "wb").write(b"")
     ejobs.append((["create", "-S", epath], render_vcf(["a", "b"], [["0/1", "0/0"]])))
+    ejobs.append((["create", "-S", epath], nos))
     for job, (rc, so, se) in zip(ejobs, run_cli_many(ejobs)):
         rep.count("binary-errors", " ".join(job[0]), True)
         if rc == 0 or rc == 101 or so != b"" or se == b"":
